@@ -12,6 +12,14 @@ CHECKS = {
             "explicit-state exploration of the real Window<u32> x VecDeque reference: every capacity 0..=254, every constructor, 2N+2 pushes, every observer and iterator split in every state; total enumeration of adversarial serialized forms",
             "Every (capacity, rotation phase / fill level, observer) triple of the default build is visited and compared with a labelled FIFO model, including rebuilds through from_parts and serde; the space is finite and closed, so for the label alphabet the result is exhaustive. Parametricity lifts labels to all element types.",
             "Trusted: the VecDeque reference (a few lines), serde_json for the round trip, rustc's parametricity for Window<T: Clone>. Quick tier checks all iterator splits only for N <= 40 and boundary/phase-relative splits above; thorough checks every split for every N."),
+    "C16": ("DESIGN.md §6 C16",
+            "total enumeration: all 513 actions, all 263 169 pairs, all 1.35e8 triples, all i8, all 2^32 f32 bit patterns (thorough; 2^20 + break-point neighbourhoods quick), dense f64 neighbourhoods, against an integer signed-strength model",
+            "The domain is finite, so the algebraic laws (conversion totality/sign/monotonicity/saturation, ratio range and round trip, negation involution, saturated subtraction, equality an equivalence, ordering vs equality) are decided on every element, pair and triple; float conversion is decided on every f32 in the thorough tier.",
+            "Trusted: the integer model (Option<i32> strength) and exactness of |v|*255 in f64 for f32 inputs. f64 inputs are covered on +-1024 ulp neighbourhoods of all break points, not exhaustively."),
+    "C18": ("DESIGN.md §6 C18",
+            "total enumeration of the 12^5 candle field grid x 12 previous closes, per-field 12^3 associativity triples plus cross-field triples, and of string families (all case masks, whitespace variants, edit-distance-1 neighbourhoods, all kind x length MA texts) against independent formulas and grammars",
+            "Every helper is a pure function of at most six floats; the grid holds every class of value the code distinguishes (NaN, infinities, signed zeros, subnormal, ordinary, huge) in every field position, so each identity and the validate predicate are decided on every combination of classes. Text parsing is decided on the complete edit-distance-1 neighbourhood of every accepted form.",
+            "Trusted: the independently written formulas/predicate/grammars in c18.rs. Value identities are judged on finite operands with a 4-8 ulp radius; values between grid points are not executed."),
 }
 
 NOT_YET = "check not built yet (work in progress; see DESIGN.md §6 for the plan)"
